@@ -69,6 +69,7 @@ def run(rep):
             if not keys: rep.holds('%s: invariant inductive, tuning flag <=> draw < num_tune, transformation untouched from the final window on, estimator frozen and step = averaged*jitter after warm-up (%d paths)' % (tag, len(outs)), time.time() - t0)
             if method == 'DualAverage' and jit: rep.sample({'query': tag, 'paths': len(outs), 'example events': [e for e in q.post(outs[0][0])['events']]})
     new_no_panic(rep, mir, L)
+    window_boundaries(rep, mir, L)
     progress_order(rep, mir, L)
     native_traces(rep)
 
@@ -96,6 +97,36 @@ def new_no_panic(rep, mir, L):
         s2 = z3.Solver(); s2.add(*mm.pc); s2.add(z3.Or(g('early_end') > nt, g('final_step_size_window') > nt, g('num_tune') != nt, _b(g('tuning')) != True, g('last_update') != 0))
         if s2.check() != z3.unsat: rep.violated('C06 invariant initiation', 'new.invariant', 'GlobalStrategy::new does not establish the schedule invariant: %s' % s2.model())
         else: rep.holds('C06 invariant I established by GlobalStrategy::new (early_end <= num_tune, final window <= num_tune, tuning, last_update = 0)')
+
+def window_boundaries(rep, mir, L):
+    """GlobalStrategy::new places the windows where the configuration says: the final step-size window is the last trunc(step_size_window * num_tune)
+    draws of warm-up (all of it when the fraction is >= 1), the early window the first trunc(early_window * num_tune) draws - for every num_tune and
+    every pair of fractions, overlapping windows included"""
+    A = RealAlg(); vm = VM(mir, A); fn = mir.method('GlobalStrategy', 'AdaptStrategy', 'new')
+    vm.add_model(r'^<A as MassMatrixAdaptStrategy<M>>::new$', lambda vm, m, c, a: ret(m, Struct((), 'MMOracle')))
+    vm.add_model(r'^stepsize::adapt::Strategy::new$', lambda vm, m, c, a: ret(m, Struct((), 'StepOracle')))
+    nt = z3.Int('num_tune'); ew, sw = A.fresh('early_window'), A.fresh('step_size_window'); m = Machine()
+    m.pc = [nt >= 0, nt < 2 ** 32, ew.v >= 0, ew.v <= 1, sw.v >= 0, sw.v <= 4]
+    opts = L.make('EuclideanAdaptOptions', {'step_size_settings': Opaque('ss'), 'mass_matrix_options': Opaque('mm'), 'early_window': ew, 'step_size_window': sw,
+                                            'mass_matrix_switch_freq': z3.Int('switch_freq'), 'early_mass_matrix_switch_freq': z3.Int('early_switch_freq'), 'mass_matrix_update_freq': z3.Int('update_freq'), 'mass_matrix_window_growth': A.const(1.5)})
+    outs = vm.run(fn, [Ref(m.alloc(Opaque('math'))), opts, nt, z3.Int('chain')], m); rep.paths += len(outs); rep.absorb_vm(vm)
+    t0 = time.time(); bad = None; nok = 0
+    for (mm, k, v) in outs:
+        s = z3.Solver(); s.set('timeout', 60000); s.add(*mm.pc); s.add(*A.lemmas)
+        if k == 'panic':
+            if s.check() != z3.unsat: bad = ('GlobalStrategy::new panics for fractions in range: %s' % (v,), s.model())
+            continue
+        nok += 1; g = lambda f: L.get('GlobalStrategy', v, f)
+        wlen = z3.ToInt(sw.v * z3.ToReal(nt)); elen = z3.ToInt(ew.v * z3.ToReal(nt))
+        s.add(z3.Or(g('final_step_size_window') != z3.If(nt >= wlen, nt - wlen, 0), g('early_end') != elen, g('current_window_size') != z3.Int('switch_freq'), g('last_update') != 0))
+        r = s.check()
+        if r == z3.sat: bad = ('window boundaries differ from the configuration', s.model())
+        elif r != z3.unsat: rep.unknown('C06.f window boundaries', 'solver: ' + s.reason_unknown()); return
+    if bad:
+        md = {d.name(): str(bad[1][d]) for d in bad[1].decls() if d.arity() == 0}
+        rep.violated('C06.f GlobalStrategy::new places the windows as configured', 'new.windows', '%s, e.g. %s' % (bad[0], md), model=md)
+    else: rep.holds('C06.f GlobalStrategy::new: final step-size window = last trunc(step_size_window * num_tune) draws of warm-up (saturating), early window = first trunc(early_window * num_tune) draws, for all num_tune < 2^32 and all fractions (overlap included)', time.time() - t0)
+    rep.cover('C06.f a non-panicking path of new exists', nok > 0)
 
 def progress_order(rep, mir, L):
     """Progress.tuning of draw d must be is_tuning() *after* adapt(d) (NutsChain::draw and MclmcChain::draw)"""
